@@ -62,6 +62,7 @@ impl emit::Rng for PlanRng {
 fn run_plan<F: SimFilesystem>(
     plan: &Plan,
     constant_rng: bool,
+    two_writers: bool,
     fs: &dyn Fn() -> F,
     worker_dir: String,
     snapshot: &dyn Fn() -> BTreeMap<String, Vec<u8>>,
@@ -89,6 +90,10 @@ fn run_plan<F: SimFilesystem>(
         )
     };
     let mut worker = new_worker();
+    // a second writer over the same template, alive at the same time (another process of the same application, or
+    // a replaced FileSet whose predecessor still writes): every other batch goes through it
+    let mut other: Option<DirectWorker> = None;
+    let mut batch_no = 0u32;
     let mut obs = vec![StepObs {
         outcome: "initial".into(),
         files: snapshot(),
@@ -97,6 +102,7 @@ fn run_plan<F: SimFilesystem>(
         match step {
             Step::Restart => {
                 worker = new_worker();
+                other = None;
                 obs.push(StepObs {
                     outcome: "restart".into(),
                     files: snapshot(),
@@ -124,9 +130,15 @@ fn run_plan<F: SimFilesystem>(
                 let mut next = Some(batch);
                 let mut attempts = 0;
                 let mut outcome = String::from("gave_up");
+                batch_no += 1;
+                let through_other = two_writers && batch_no % 2 == 0;
+                if through_other && other.is_none() {
+                    other = Some(new_worker());
+                }
                 while let Some(b) = next.take() {
                     attempts += 1;
-                    match panic::catch_unwind(AssertUnwindSafe(|| worker.on_batch(b))) {
+                    let w: &mut DirectWorker = if through_other { other.as_mut().unwrap() } else { &mut worker };
+                    match panic::catch_unwind(AssertUnwindSafe(|| w.on_batch(b))) {
                         Ok(Ok(())) => outcome = "ok".into(),
                         Ok(Err(None)) => outcome = "failed_no_retry".into(),
                         Ok(Err(Some(rem))) => {
@@ -138,7 +150,7 @@ fn run_plan<F: SimFilesystem>(
                     }
                 }
                 obs.push(StepObs {
-                    outcome: format!("{outcome} after {attempts} attempt(s)"),
+                    outcome: format!("{outcome} after {attempts} attempt(s){}", if through_other { " (second writer)" } else { "" }),
                     files: snapshot(),
                 });
             }
@@ -195,6 +207,7 @@ impl Engine for FsDiff {
         let mode = if ch.chance(1, 4) { "C10" } else { "C11" };
         let plan = gen_plan(ch, mode, ctx.thorough);
         let constant_rng = ch.chance(1, 4);
+        let two_writers = plan.cfg.reuse && ch.chance(1, 3);
         let cfg = &plan.cfg;
 
         // --- simulated
@@ -220,7 +233,7 @@ impl Engine for FsDiff {
                     .map(|(p, d, _, _)| (name_of(&p), d))
                     .collect()
             };
-            run_plan(&plan, constant_rng, &|| sim.clone(), cfg.raw_dir.clone(), &snap)
+            run_plan(&plan, constant_rng, two_writers, &|| sim.clone(), cfg.raw_dir.clone(), &snap)
         };
 
         // --- real
@@ -267,7 +280,7 @@ impl Engine for FsDiff {
                 }
                 m
             };
-            run_plan(&plan, constant_rng, &|| StdFs, path_str(&real_dir), &snap)
+            run_plan(&plan, constant_rng, two_writers, &|| StdFs, path_str(&real_dir), &snap)
         };
         if with_link {
             out.probe("member_named_symlink_to_a_foreign_file");
@@ -323,7 +336,7 @@ impl Engine for FsDiff {
             out.violate(prop, "simfs_vs_stdfs_divergence", "the two executions have different lengths".to_string());
         }
         let mut h = Fnv::new();
-        h.str(&format!("{plan:?} {constant_rng}"));
+        h.str(&format!("{plan:?} {constant_rng} {two_writers}"));
         for s in &sim_obs {
             h.str(&s.outcome);
             for (n, d) in &s.files {
@@ -340,6 +353,9 @@ impl Engine for FsDiff {
         }
         if plan.raw_stranger {
             out.probe("real_non_utf8_names_and_lookalike_directory");
+        }
+        if two_writers {
+            out.probe("two_live_writers_over_one_template");
         }
         if constant_rng {
             out.probe("constant_rng");
